@@ -35,6 +35,11 @@ def ops(g, traits, has_inv):
         reqs.put_aggs(P(1), g, [A(3)], mv='1.18', tag='PUT aggregates@1.18'),
         reqs.reshaper({P(1): (g, {'VCPU': {'total': 8}})}, {}, tag='reshaper(g)'),
         reqs.put_alloc(K(2), {P(1): {'VCPU': 1}}, tag='PUT allocations K2 on P1'),
+        # the provider is named both in the reshaper's inventories and in its allocations (the
+        # handler reads it twice)
+        reqs.reshaper({P(1): (g, {'VCPU': {'total': 7}})},
+                      {K(4): {'allocs': {P(1): {'VCPU': 1}}, 'cgen': None}},
+                      tag='reshaper(g) with allocations on P1'),
     ]
     return o
 
@@ -71,7 +76,7 @@ def run(ctx):
     sc = scenarios(ctx.quick, ctx.seed)
     tot = explore_conc.run_scenarios(ctx, 'C05', sc)
     fill(ctx, tot, len(sc), 'three start states (bare provider / inventory / inventory+traits+'
-         'aggregates+consumer) x all unordered pairs (with repetition) of 14 provider-writing '
+         'aggregates+consumer) x all unordered pairs (with repetition) of 15 provider-writing '
          'operations (PUT inventories, PUT inventory, POST/DELETE inventory, DELETE inventories, PUT '
          'traits changing/no-op, DELETE traits, PUT aggregates 1.19/1.18, reshaper, PUT allocations; '
          'generation-carrying ones with current and stale generation) x ALL interleavings at '
